@@ -14,7 +14,7 @@ class Gen:
     def weights(self):
         w = dict(apply=10, ack=12, ready=12, exit=4, tick=9, advance=8, scan=5, map=2, imap=2, imapu=1,
                  feed=4, stale_ack=0.7, stale_ready=0.7, death=0.7, junk=0.5, discard=0.7, terminate_job=1.5,
-                 grow=1, shrink=1, close=0.3, next=2.5, dup_ready=1.0, scan_block=2.5)
+                 grow=1, shrink=1, close=0.3, next=2.5, dup_ready=1.0, scan_block=2.5, advance_deadline=6)
         w.update(self.focus)
         return w
 
@@ -62,11 +62,53 @@ class Gen:
             return rng.randrange(0, max(1, n + 1))
         return None
 
+    def deadlines(self):
+        """times at which something is due in the real pool: (time, what follows best)"""
+        p = self.c.pool
+        out = []
+        for j in list(p._cache.values()):
+            t = getattr(j, '_time_accepted', None)
+            if isinstance(t, (int, float)) and t:
+                so = j._soft_timeout if j._soft_timeout is not None else p.soft_timeout
+                ha = j._timeout if j._timeout is not None else p.timeout
+                if so:
+                    out.append((t + so, 'scan'))
+                if ha:
+                    out.append((t + ha, 'scan'))
+            wl = getattr(j, '_worker_lost', None)
+            if wl and not j.ready():
+                out.append((wl[0] + j._lost_worker_timeout + 1, 'tick'))
+        rs = p.restart_state
+        if rs.T:
+            out.append((rs.T + rs.maxT, 'tick'))
+        now = bp.monotonic()
+        return [(int(t), f) for t, f in out if t > now - 1]
+
     def one(self):
         rng = self.rng
+        hint = getattr(self, 'hint', None)
+        self.hint = None
+        if hint and rng.random() < 0.8:
+            if hint == 'scan':
+                return ['scan', rng.random() < 0.3] if rng.random() < 0.7 else self.one_of('scan_block')
+            return ['tick']
         w = self.weights()
         k = rng.choices(list(w), list(w.values()))[0]
+        return self.one_of(k)
+
+    def one_of(self, k):
+        rng = self.rng
         c = self.c
+        if k == 'advance_deadline':
+            dl = self.deadlines()
+            if not dl:
+                return ['advance', rng.choice([1, 2, 3])]
+            t, follow = rng.choice(dl)
+            dt = int(t - bp.monotonic()) + rng.choice([0, 0, 0, 0, -1, 1])
+            if dt < 1:
+                dt = 1
+            self.hint = follow
+            return ['advance', dt]
         if k == 'apply':
             return ['apply', rng.choice([None, None, None, 0, 2, 4]), rng.choice([None, None, None, 0, 3, 6]),
                     rng.choice([None, None, None, 3]), rng.choice([None, None, None, True, False])]
